@@ -38,11 +38,68 @@ def gen_model(ctx, rng, bases=None, opts=None, want_tall=True, max_modes=None):
         opt = type(opt)(sensor_costs=costs)
         desc["costs"] = costs.tolist()
     model = SSPOR(basis=models.make_basis(basis, nm), optimizer=opt)
+    # Histories: the properties hold for a model at every point of its life, so most models are USED before the
+    # fit that is judged (fitted on other data, asked for predictions / errors with several sensor counts, re-ranked
+    # with fewer modes).  Anything cached by those calls must not leak into the judged state.
+    desc["history"] = []
+    if rng.random() < 0.65:
+        X0 = np.array([[rng.randint(-6, 6) for _ in range(nf)] for _ in range(ne)], dtype=float)
+        desc["X0"] = X0.tolist()
+        try:
+            model.fit(X0.copy(), quiet=True, seed=rng.randint(0, 20))
+            desc["history"].append("fit(X0)")
+            m0 = model.basis_matrix_.shape[1]
+            for ns in sorted({min(nf, max(1, m0)), min(nf, m0 + 1), rng.randint(1, nf)}):
+                model.set_number_of_sensors(ns)
+                sel = model.get_selected_sensors()
+                try:
+                    model.predict(X0[:, sel])
+                    model.score(X0)
+                    desc["history"].append(f"predict@{ns}")
+                except Exception:
+                    pass
+            try:
+                model.reconstruction_error(X0)
+                desc["history"].append("reconstruction_error")
+            except Exception:
+                pass
+        except ValueError:
+            pass
+        model = _reset_n_sensors(model)
     try:
         model.fit(X.copy(), quiet=True, seed=desc["seed"])
     except ValueError:
         return None
+    desc["history"].append("fit(X)")
+    # optionally: predictions with the sensor counts that will be judged, then a re-ranking with fewer modes that does
+    # not refit the basis (update_n_basis_modes / prefit path)
+    m = model.basis_matrix_.shape[1]
+    if m >= 2 and rng.random() < 0.4:
+        try:
+            for ns in sorted({min(nf, m), min(nf, m + 1), min(nf, max(1, m - 1)), nf}):
+                model.set_number_of_sensors(ns)
+                model.predict(X[:, model.get_selected_sensors()])
+            k = rng.randint(1, m - 1)
+            model.update_n_basis_modes(k)
+            desc["history"].append(f"predicts; update_n_basis_modes({k})")
+            desc["update_modes"] = k
+        except Exception:
+            pass
+        model = _reset_n_sensors(model, keep=True)
     return {"model": model, "desc": desc, "X": X, "B": np.array(model.basis_matrix_, dtype=float)}
+
+
+def _reset_n_sensors(model, keep=False):
+    """forget an explicitly chosen sensor count so that the judged fit uses the default again"""
+    try:
+        model.n_sensors = None
+        if hasattr(model, "_n_sensors_defaulted"):
+            model._n_sensors_defaulted = False
+        if keep and hasattr(model, "ranked_sensors_"):
+            model.n_sensors = len(model.ranked_sensors_)
+    except Exception:
+        pass
+    return model
 
 
 def rebuild(desc):
@@ -53,7 +110,37 @@ def rebuild(desc):
         opt = CCQR(sensor_costs=np.array(desc["costs"]))
     model = SSPOR(basis=models.make_basis(desc["basis"], desc["n_modes"]), optimizer=opt)
     X = np.array(desc["X"], dtype=float)
+    if desc.get("X0") is not None:
+        X0 = np.array(desc["X0"], dtype=float)
+        nf = X0.shape[1]
+        try:
+            model.fit(X0.copy(), quiet=True, seed=1)
+            m0 = model.basis_matrix_.shape[1]
+            for ns in sorted({min(nf, max(1, m0)), min(nf, m0 + 1), nf}):
+                model.set_number_of_sensors(ns)
+                try:
+                    model.predict(X0[:, model.get_selected_sensors()])
+                except Exception:
+                    pass
+            try:
+                model.reconstruction_error(X0)
+            except Exception:
+                pass
+        except ValueError:
+            pass
+        model = _reset_n_sensors(model)
     model.fit(X.copy(), quiet=True, seed=desc["seed"])
+    if desc.get("update_modes"):
+        nf = X.shape[1]
+        m = model.basis_matrix_.shape[1]
+        for ns in sorted({min(nf, m), min(nf, m + 1), min(nf, max(1, m - 1)), nf}):
+            model.set_number_of_sensors(ns)
+            try:
+                model.predict(X[:, model.get_selected_sensors()])
+            except Exception:
+                pass
+        model.update_n_basis_modes(desc["update_modes"])
+        model = _reset_n_sensors(model, keep=True)
     return {"model": model, "desc": desc, "X": X, "B": np.array(model.basis_matrix_, dtype=float)}
 
 
